@@ -363,7 +363,6 @@ flatten_ndarray_to_sparse(struct ndsparse *array, size_t nrow, size_t ncol,
 static void
 divided_diffs(int order, int porder, int j, double* knots, double* out)
 {
-	double a[order], b[order];
 	double delta;
 	int i;
 
@@ -386,7 +385,12 @@ divided_diffs(int order, int porder, int j, double* knots, double* out)
 
 	/*
 	 * Get each of the (n-1)th derivatives.
+	 * (They have porder entries each. Sizing these arrays by the spline
+	 * order instead needs stack space proportional to order*porder, which
+	 * overflows the stack for very large orders, and gives arrays of
+	 * length zero for order 0.)
 	 */
+	double a[porder], b[porder];
 
 	divided_diffs(order, porder - 1, j + 1, knots, a);
 	divided_diffs(order, porder - 1, j, knots, b);
